@@ -286,7 +286,18 @@ def dispatch2 (op : String) (args : List SExp) : Option String :=
              | .ok (hh, gs) rest => s!"(ok {showMsg hh gs} rest={bytesToHex rest})"
              | .status c => s!"(err status {c})"
              | .other => "(err other)"
-           s!"req={reqText} resp={respText}"
+           -- what the property demands of the returned value, from the independent decoder of Spec/Unser.lean:
+           -- an uncut, timely, non-error reply that is a well-formed RFC 8010 message is returned exactly
+           let specResp : Option String :=
+             if rep.status < 400 && rep.cutAt.isNone && !(timedOut tmo rep) then
+               (match Spec.unser rep.body with
+                | some (w, rest) =>
+                  if Spec.wfWire w then some s!"(ok {showMsg (Spec.interp w).1 (Spec.interp w).2} rest={bytesToHex rest})" else none
+                | none => none)
+             else none
+           match specResp with
+           | some sr => s!"req={reqText} resp={respText} ## req={reqText} resp={sr}"
+           | none => s!"req={reqText} resp={respText}"
          | _, _, _ => "(bad-arg)")
      | _, _ => "(bad-arg)")
   | "cli", [.list (.atom "args" :: as), .atom doc, .list (.atom "answers" :: ans), c] =>
@@ -310,22 +321,29 @@ def dispatch2 (op : String) (args : List SExp) : Option String :=
            s!"exit={code} reqs=({" ".intercalate (reqs.map fun r => "(" ++ showReq r ++ ")")})"
          | none => "(bad-arg)")
      | _, _ => "(bad-arg)")
-  | "tlscase", [.atom be, .atom cl, .atom ig, .atom root, .atom cert] =>
+  | "tlscase", .atom be :: .atom cl :: .atom ig :: .atom root :: .atom cert :: more =>
     some (
       let b : Option Backend := if be == "native-tls" then some .nativeTls else if be == "rustls" then some .rustls else none
       let c : Option ClientKind := if cl == "blocking" then some .blocking else if cl == "async" then some .async else none
-      let i : Option IgnoreArg := if ig == "unset" then some .unset else if ig == "false" then some .setFalse else if ig == "true" then some .setTrue else none
+      -- the setter calls in order: `unset`, `true`, `false`, or a word over t/f such as `tf`
+      let i : Option IgnoreArg := if ig == "unset" then some [] else if ig == "false" then some [false] else if ig == "true" then some [true]
+        else ig.toList.mapM (fun ch => if ch == 't' then some true else if ch == 'f' then some false else none)
       let r : Option RootArg := if root == "none" then some .none else if root == "pem" then some .correctPem else if root == "der" then some .correctDer
         else if root == "unrelated" then some .unrelated else none
       let k : Option CertKind := if cert == "valid" then some .valid else if cert == "wrongname" then some .wrongName else if cert == "expired" then some .expired
         else if cert == "selfsigned" then some .selfSigned else if cert == "unknownca" then some .unknownCa else none
-      match b, c, i, r, k with
-      | some b, some c, some i, some r, some k =>
+      let h : Option HostKind := match more with
+        | [] => some .dns
+        | [.atom "dns"] => some .dns
+        | [.atom "ip"] => some .ip
+        | _ => none
+      match b, c, i, r, k, h with
+      | some b, some c, some i, some r, some k, some h =>
         let show_ (a : Bool) := if a then "accepted app=+" else "rejected app=0"
-        -- model ## what the property demands (accept iff opted out, or valid certificate with the correct root)
-        let should := i == .setTrue || (k == .valid && (r == .correctPem || r == .correctDer))
-        s!"{show_ (accepts c b i r k)} ## {show_ should}"
-      | _, _, _, _, _ => "(bad-arg)")
+        -- model ## what the property demands (accept iff the latest setter call opted out, or valid certificate with the correct root)
+        let should := i.getLast? == some true || (k == .valid && (r == .correctPem || r == .correctDer))
+        s!"{show_ (accepts c b i r k h)} ## {show_ should}"
+      | _, _, _, _, _, _ => "(bad-arg)")
   | "thmunser", [w, .atom p] =>
     some (match readWMsg w, hexToBytes p with
      | some w, some pay =>
